@@ -259,6 +259,7 @@ type c19Op struct {
 	Host   string `json:"host,omitempty"` // lookup
 	Node   int    `json:"node,omitempty"`
 	ViaSrv bool   `json:"via_http,omitempty"` // lookup through ServeHTTP instead of lookupMapping
+	IDLit  string `json:"id_literal,omitempty"` // delete: a guessed mapping id (ids are sequential) instead of Ref
 	Pin    bool   `json:"pin_node,omitempty"` // keep Node as given (default: node = thread index)
 	Strict bool   `json:"strict,omitempty"`   // lookup judged by the state at its start: everything its own thread completed before it
 }
@@ -311,6 +312,15 @@ func c19Exec(w *c19World, op c19Op, prior []c19Res) c19Res {
 			res.OK, res.ID = true, m.ID
 		}
 	case "delete":
+		if op.IDLit != "" {
+			res.ID = op.IDLit
+			if err := n.repo.DeleteMapping(ctx, op.IDLit, op.C); err != nil {
+				res.Err = c19Short(err)
+			} else {
+				res.OK = true
+			}
+			return res
+		}
 		ref := prior[op.Ref]
 		if !ref.Ran || !ref.OK || ref.ID == "" {
 			res.Ran, res.Skipped = false, "referenced create did not succeed"
@@ -432,6 +442,18 @@ func c19Audit(results []c19Res) *c19Truth {
 	byNo := map[int]*c19Claim{}
 	idCount := map[string]int{}
 	for _, r := range results {
+		if r.Ran && r.Op.K == "delete" && r.Op.IDLit != "" {
+			// delete by guessed id: an owner's delete iff that id was handed to this very
+			// client by an earlier successful claim
+			if r.OK {
+				for _, c := range tr.claims {
+					if c.ID == r.ID && c.Client == r.Op.C && c.No < r.Op.No {
+						c.Deleted = true
+					}
+				}
+			}
+			continue
+		}
 		if r.Ran && r.Faulted && r.Op.K == "delete" {
 			// an owner's delete hit by a storage fault may have been applied partly or not
 			// at all, whatever it returned: either outcome is accepted from here on
